@@ -508,6 +508,9 @@ def header_literals(cx, cls):
                                     v = b_
                 if v is not None:
                     keys = None
+                    inl = cx.pure_inline_call(v, fn.mod, k) if isinstance(v, ast.Call) else None
+                    if inl is not None:
+                        v = inl         # a private straight-line helper that returns the blank header
                     if isinstance(v, ast.Dict) and all(isinstance(x, ast.Constant) for x in v.keys):
                         keys = frozenset(x.value for x in v.keys)
                     elif isinstance(v, ast.Call) and callee_name(v) == 'dict' and not v.args:
@@ -597,6 +600,10 @@ def r11_header_fields_present(ck, cx, rule='R11'):
                     for ti, t in enumerate(tl):
                         if is_hdr(t):
                             v = vl[ti] if vl is not None else (val if len(tl) == 1 else None)
+                            if isinstance(v, ast.Call) and ev.frame.func is not None:
+                                inl = cx.pure_inline_call(v, ev.frame.func.mod, ev.frame.cls)
+                                if inl is not None:
+                                    v = inl
                             if isinstance(v, ast.Dict) and all(isinstance(x, ast.Constant) for x in v.keys):
                                 whole = frozenset(x.value for x in v.keys)
                             else:
@@ -735,4 +742,7 @@ def run(ck, tier):
     from .. import ownership as _own2
     ck.rule('R15', 'no unsound memoisation (a caching decorator on a method, or on a function that returns a mutable container) in the modules this property rests on')
     ck.guard(_own2.rule_no_unsafe_memo, ck, cx, 'R15', ('pymodbus.transaction', 'pymodbus.client.sync'), 'a value cached from an earlier transaction decides this one')
+    from ..share import import_findings as _imp2
+    ck.rule('R16', 'the client is ready for the next call after any fault: what an earlier exchange left in the framer is dropped before the next request goes out (shared with C08 R4)')
+    _imp2(ck, 'C08', 'R16', ('R4',), 'one undecodable reply makes every later transaction on this client fail')
     return cx.idx
